@@ -16,6 +16,17 @@ STATE_WRITE = call(r"= RwLock::<(query_hash_cache::)?QueryCacheState>::write\(",
 GEN_LOAD = call(r"= Atomic::<u64>::load\(", name="invalidation_generation.load")
 CACHE_INSERT = call(r"= HashMap::<(query_hash_cache::)?QueryCacheKey, CachedQueryResult>::insert\(", name="state.cache.insert")
 
+def _hit_decision(F):
+    from vlib import mirdec as MD
+    ki = field_index("query_hash_cache.rs", "CachedQueryResult", "requested_k")
+    if ki is None:
+        return [Result("inconclusive", "CachedQueryResult.requested_k not found")]
+    atoms = [("cached_k", r"^\(\(\*\{.*\}\)\.%d: usize\)$" % ki), ("k", r"^arg\(_4: usize\)$"), ("found", r"^discr:call HashMap::<(query_hash_cache::)?QueryCacheKey, (query_hash_cache::)?CachedQueryResult>::get::<")]
+    oc = {"hit": stmt(r"= (query_hash_cache::)?ExactLookup::Hit\(", name="ExactLookup::Hit(cached results)")}
+    return MD.decides(F, Q + "get_scoped", "entry", oc, atoms, {"hit": ("=>", "(and (= found 1) (>= cached_k k))")},
+                      what="QueryHashCache::get_scoped serves a cached list only if it was computed for at least as many results as requested")
+
+
 MOS = [
     MO("O7.3/bump_before_lock", "clear / invalidate_doc / invalidate_for_insert: generation bumped before the state write lock is taken",
        allof(*[precedes(Q + f, GEN_BUMP, STATE_WRITE) for f in ("clear", "invalidate_doc", "invalidate_for_insert")]),
@@ -27,9 +38,10 @@ MOS = [
              precedes(Q + "insert_with_k_scoped_internal", STATE_WRITE, CACHE_INSERT),
              lambda F: _gen_load_under_lock(F)),
        functions=[("query_hash_cache.rs", "insert_with_k_scoped_internal")]),
-    MO("O7.2/k_and_scope", "get_scoped: an exact hit is served only when cached.requested_k >= k; the key carries the scope; insert_with_k_scoped_if_generation passes Some(expected_generation)",
-       allof(only_via(Q + "get_scoped", call(r"= core::slice::<impl \[SearchResult\]>::to_vec\(|= <\[SearchResult\] as .*to_vec|to_vec", name="copy cached results"),
-                      Arm(r"^Ge\(\(\(\*\{.*\}\)\.\d+: usize\), arg\(_4: usize\)\)$", {"otherwise"}, name="cached.requested_k >= k")),
+    MO("O7.2/hit_decision", "get_scoped: an exact hit (cached results copied and served) happens only when the key is cached and cached.requested_k >= k — proved for all values of the two counts (DECIDES)",
+       lambda F: _hit_decision(F), functions=[("query_hash_cache.rs", "get_scoped")]),
+    MO("O7.2/k_and_scope", "get_scoped: the key carries the scope; insert_with_k_scoped_if_generation passes Some(expected_generation)",
+       allof(  # (the requested_k >= k test itself is decided value-level by O7.2/hit_decision)
              lambda F: FnCheck(F, Q + "get_scoped").reachable(stmt(r"= (query_hash_cache::)?QueryCacheKey \{ scope: copy _2, query_hash: (move|copy) _\d+ \};$", name="key = {scope, hash}")),
              lambda F: FnCheck(F, Q + "insert_with_k_scoped_if_generation").reachable(stmt(r"= Option::<u64>::Some\(copy _6\);$", name="Some(expected_generation)"))),
        functions=[("query_hash_cache.rs", "get_scoped"), ("query_hash_cache.rs", "insert_with_k_scoped_if_generation")]),
